@@ -12,7 +12,7 @@ spy(P.Project, "get_project", "signac.project.Project.get_project")
 spy(P.Project, "get_job", "signac.project.Project.get_job")
 spy(P.Project, "init_project", "signac.project.Project.init_project")
 CODE = ["signac._config._locate_config_dir / _get_project_config_fn / _raise_if_older_schema", "signac.project.Project.get_project / get_job / init_project / __init__", "signac.get_project / get_job / init_project"]
-BOUNDS = {"layouts": "directory chains of depth <= 4 (quick) / 5 (thorough); every level is a plain sub-directory, a directory named 'workspace', or a 32-hex-named directory (only as a child of a project's workspace), and may or may not be a project; "
+BOUNDS = {"layouts": "directory chains of depth <= 4 (quick) / 5 (thorough); every level is a plain sub-directory, a directory named 'workspace', or a 32-hex-named directory (only as a child of a project's workspace), and may or may not be a project; id-named levels carry distinct ids or all the same id; "
                      "plus a side branch with a symlinked job directory (to a plain directory or to another project's job)", "queries": "EVERY directory of the layout and a non-existent child, as absolute path and relative to every ancestor used as cwd; search=True/False",
           "init_project": "existing project with any combination of {document, cache file, jobs, extra config key}; as a fresh directory; nested below an existing project"}
 OUTSIDE = ["a directory named workspace that is itself a project root", "id-like names elsewhere than directly below a project's workspace (excluded by the property)", "symlinked project directories"]
@@ -40,12 +40,17 @@ def _valid(kinds, projs):
     return True
 
 
-def _build(root, kinds, projs):
-    """returns list of level directories (absolute)"""
+def _idname(i, same):
+    return IDS[0] if same else IDS[i]
+
+
+def _build(root, kinds, projs, same=False):
+    """returns list of level directories (absolute); same: every id-named level carries the SAME id (a job of a nested project that has the
+    id of the enclosing job)"""
     levels = []
     cur = root
     for i, k in enumerate(kinds):
-        name = ["d%d" % i, "workspace", IDS[i]][k]
+        name = ["d%d" % i, "workspace", _idname(i, same)][k]
         cur = os.path.join(cur, name)
         os.makedirs(cur, exist_ok=True)
         levels.append(cur)
@@ -76,12 +81,12 @@ def _queries(levels, cwd_levels):
     return out
 
 
-def _layout_case(kinds, projs):
+def _layout_case(kinds, projs, same=False):
     problems = []
     with SL.Scratch() as sc:
         base = os.path.join(sc.root, "base")
         os.makedirs(base)
-        levels = _build(base, kinds, projs)
+        levels = _build(base, kinds, projs, same)
         n = len(levels)
         old = os.getcwd()
         try:
@@ -108,7 +113,7 @@ def _layout_case(kinds, projs):
                     gotj = ("error", type(e).__name__, str(e)[:60])
                 if jl:
                     i = jl[-1]
-                    wantj = (IDS[i], levels[i - 2], os.path.realpath(levels[i]))
+                    wantj = (_idname(i, same), levels[i - 2], os.path.realpath(levels[i]))
                 else:
                     wantj = None
                 if gotj != wantj:
@@ -138,10 +143,10 @@ def _dec(code, n):
     return kinds, projs
 
 
-def h_layout(n: int, code: int):
-    """all layouts of depth n encoded base 6 (3 kinds x project bit per level)"""
+def h_layout(n: int, code: int, same: bool):
+    """all layouts of depth n encoded base 6 (3 kinds x project bit per level); same: all id-named levels share one id"""
     assert 1 <= n <= 5 and 0 <= code < 6 ** 5 and part_ok(code)
-    assert n <= (4 if tier() == "quick" else 5)
+    assert n <= (4 if tier() == "quick" else 5) or code in (2997, 6885)   # quick: depth 5 only for project/workspace/<id>(project)/workspace/<id>
     assert (n == 1 and code < 6) or (n == 2 and code < 36) or (n == 3 and code < 216) or (n == 4 and code < 1296) or n == 5
     fresh_path()
     n = ci(n, 1, 5)
@@ -149,8 +154,11 @@ def h_layout(n: int, code: int):
     kinds, projs = _dec(code, n)
     if not _valid(kinds, projs):
         discard("layout outside the property (id-like name not below a project's workspace)")
+    same = cb(same)
+    if same and sum(1 for k in kinds if k == 2) < 2:
+        discard("same-id variant needs two id-named levels")
     with nt():
-        problems = _layout_case(kinds, projs)
+        problems = _layout_case(kinds, projs, same)
     reached()
     assert not problems
 
@@ -227,7 +235,7 @@ def _init_case(doc, cache, jobs, extra, mode):
             pr.update_cache()
         if extra:
             with open(os.path.join(root, ".signac", "config"), "a") as f:
-                f.write("statepoint_cache_miss_warning_threshold = 7\n")
+                f.write("statepoint_cache_miss_warning_threshold=7   # hand-edited, not in configobj's own formatting\n")
         before = SL.snap(root, True)
         old = os.getcwd()
         try:
